@@ -292,7 +292,7 @@ def run(chk):
         chk.oracle('corpus:' + name, [case], ORACLES[name])
 
     rules_all = list(PROTEASES.keys()) + EXTRA_RULES
-    N = 330 if tier == 'quick' else 5000
+    N = 330 if tier == 'quick' else 2000
     dig, gens, pcs = [], [], []
     for idx in range(N):
         a, pat = gen_protein(rng, 40 if idx % 4 else 12, full_pool=(idx % 5 == 0))
@@ -340,6 +340,11 @@ def run(chk):
     def nontrivial(c, im):
         return im.count('~') >= 1 and annot.undump(c[1]).has_mods()
 
+    from peptacular.proforma.proforma_parser import ProFormaAnnotation as PA
+    cover = cc.LineCover([PA.slice, PA.has_mods, digestion._return_digested_sequences, digestion.digest,
+                          digestion.get_left_semi_enzymatic_sequences, digestion.get_right_semi_enzymatic_sequences,
+                          digestion.get_semi_enzymatic_sequences, digestion.get_non_enzymatic_sequences])
+    cover.__enter__()
     chk.correspond('digest', DRV, dig, dig_line, dig_impl, compare=lambda im, m: im == canon_reply(m), nontrivial_fn=nontrivial)
 
     def gen_line(c):
@@ -358,7 +363,7 @@ def run(chk):
 
     # slices: every 0 <= i <= j <= n of short proteins, inplace False/True
     sl = []
-    for c in dig[:: (6 if tier == 'quick' else 3)]:
+    for c in dig[:: (6 if tier == 'quick' else 12)]:
         n = len(annot.undump(c[1])._sequence)
         if n <= (10 if tier == 'quick' else 40):
             for i in range(n + 1):
@@ -370,6 +375,11 @@ def run(chk):
 
     chk.correspond('slice', DRV, sl, lambda c: f'slice\t{c[0]}\t{c[1]}\t{c[2]}\t{int(c[3])}', sl_impl,
                    compare=lambda im, m: im == annot.canon_dump(m), nontrivial_fn=lambda c, im: c[1] < c[2] and '|N|N|N|N|N|N|N|N|None|N' not in im)
+
+    cover.__exit__()
+    unc = {k: v for k, v in cover.report().items() if v}
+    chk.notes.append('reach: lines of the modelled functions not executed by the correspondence inputs (the other return-type '
+                     'branches of the dispatcher are executed by the oracle): ' + (json.dumps(unc) if unc else 'none'))
 
     # ---------------------------------------------------------------- oracle
     def in_domain(c):
